@@ -16,3 +16,9 @@ Proof. vm_compute. reflexivity. Qed.
 Lemma ob_action_order :
   action_order = [b "Remove"; b "RemoveByPrefix"; b "Empty"; b "Add"; b "RenameCase"].
 Proof. vm_compute. reflexivity. Qed.
+
+From G16 Require Import WiringExpected.
+(* which rule list reaches which message kind, and in which order rules are applied:
+   the source statements are the ones Model.dispatch / apply_rules were transcribed from *)
+Lemma ob_wiring : wiring = wiring_expected.
+Proof. vm_compute. reflexivity. Qed.
